@@ -113,53 +113,56 @@ example : analyze (.agg "count_values" .by_ ["a", "b"] (some (.str "a")) (.sel "
   without dropping the metric name), aggregations `by (L)` / `without (L)` with ANY operator,
   one-to-one vector matching `on (L)` / `ignoring (L)` (arithmetic, comparison filters, `and`,
   `unless`, `or`), many-to-one matching with `group_left (inc)` / `group_right (inc)`,
-  `histogram_quantile`, `label_replace` / `label_join` (dynamic labels), nested to any depth.  `FExpr.toExpr` is what the analyzer sees, `FExpr.toV` what the engine
+  `histogram_quantile`, `label_replace` / `label_join` (dynamic labels), range functions over matrix
+  selectors and functions over subqueries (evaluation over time-indexed inputs), nested to any depth.  `FExpr.toExpr` is what the analyzer sees, `FExpr.toV` what the engine
   computes (spec-level semantics at one timestamp, `eval`). -/
 
 /-- abstract form: if no node changes the shard of a series, evaluating on each shard and
     concatenating is a permutation of evaluating once, and (second part) a series label set comes
     out of one shard only — so `MergeResponse`, which merges by label set, is a plain union. -/
-theorem C44_compat_sound (sh : Labels → Nat) (e : VExpr) (hc : Compat sh e) (S : Vec) (n : Nat)
-    (hn : ∀ s ∈ S, sh s.1 < n) :
-    ((shardIndices n).flatMap fun i => eval e (shardOf sh i S)).Perm (eval e S) ∧
-    ∀ i j x y, x ∈ eval e (shardOf sh i S) → y ∈ eval e (shardOf sh j S) → x.1 = y.1 → i = j := by
+theorem C44_compat_sound (sh : Labels → Nat) (e : VExpr) (hc : Compat sh e) (S : TVec) (t : Int) (n : Nat)
+    (hn : ∀ t' s, s ∈ S t' → sh s.1 < n) :
+    ((shardIndices n).flatMap fun i => eval e (shardOfT sh i S) t).Perm (eval e S t) ∧
+    ∀ i j x y, x ∈ eval e (shardOfT sh i S) t → y ∈ eval e (shardOfT sh j S) t → x.1 = y.1 → i = j := by
   constructor
-  · have h1 : ((shardIndices n).flatMap fun i => eval e (shardOf sh i S)) =
-        ((List.range n).flatMap fun i => shardOf sh i (eval e S)) := by
+  · have h1 : ((shardIndices n).flatMap fun i => eval e (shardOfT sh i S) t) =
+        ((List.range n).flatMap fun i => shardOf sh i (eval e S t)) := by
       unfold shardIndices
       congr 1; funext i
-      exact eval_shard sh i e hc S
+      exact eval_shard sh i e hc S t
     rw [h1]
-    refine (perm_shards sh (eval e S) n).trans (List.Perm.of_eq ?_)
+    refine (perm_shards sh (eval e S t) n).trans (List.Perm.of_eq ?_)
     apply List.filter_eq_self.mpr
     intro x hx
-    obtain ⟨y, hy, hxy⟩ := eval_shard_of_input sh e hc S x hx
-    simp [hxy, hn y hy]
+    obtain ⟨t', y, hy, hxy⟩ := eval_shard_of_input sh e hc S t x hx
+    simp [hxy, hn t' y hy]
   · intro i j x y hx hy hxy
-    rw [eval_shard sh i e hc S] at hx
-    rw [eval_shard sh j e hc S] at hy
+    rw [eval_shard sh i e hc S t] at hx
+    rw [eval_shard sh j e hc S t] at hy
     have hi : sh x.1 = i := by simpa [shardOf] using (List.mem_filter.mp hx).2
     have hj : sh y.1 = j := by simpa [shardOf] using (List.mem_filter.mp hy).2
     rw [← hi, ← hj, hxy]
 
+/-- what the stores hand to shard `i` of `total` at every timestamp -/
+def shardInput (hash : Labels → Nat) (total i : Nat) (K : List String) (by_ : Bool) (S : TVec) : TVec :=
+  fun t => (S t).filter fun s => shardMatches hash total i K by_ s.1
+
 /-- C44 for the fragment at full strength: whatever labels the analyzer chooses. -/
 def C44_fragment_full : Prop :=
-  ∀ (hash : Labels → Nat) (total : Nat) (e : FExpr) (K : List String) (by_ : Bool) (S : Vec),
+  ∀ (hash : Labels → Nat) (total : Nat) (e : FExpr) (K : List String) (by_ : Bool) (S : TVec) (t : Int),
     0 < total → e.WF → analyze e.toExpr = ⟨some K, by_⟩ → K ≠ [] →
-    ((shardIndices total).flatMap fun i => eval e.toV (S.filter fun s => shardMatches hash total i K by_ s.1)).Perm
-      (eval e.toV S)
+    ((shardIndices total).flatMap fun i => eval e.toV (shardInput hash total i K by_ S) t).Perm (eval e.toV S t)
 
 /-- **C44_sound** (fragment): when the analyzer shards a fragment query by `K` and the metric
     name is treated consistently (`NameSafe`: not among `by` labels, among `without` labels),
-    then for every hash function, shard count, series set, aggregation operators and nesting
-    depth the concatenation of the per-shard results is a permutation of the unsharded result,
-    and no label set is produced by two shards. -/
-theorem C44_sound (hash : Labels → Nat) (total : Nat) (e : FExpr) (K : List String) (by_ : Bool) (S : Vec)
+    then for every hash function, shard count, time-indexed series set, evaluation timestamp,
+    aggregation operators and nesting depth the concatenation of the per-shard results is a
+    permutation of the unsharded result, and no label set is produced by two shards. -/
+theorem C44_sound (hash : Labels → Nat) (total : Nat) (e : FExpr) (K : List String) (by_ : Bool) (S : TVec) (t : Int)
     (ht : 0 < total) (hwf : e.WF) (ha : analyze e.toExpr = ⟨some K, by_⟩) (hname : NameSafe K by_) :
-    ((shardIndices total).flatMap fun i => eval e.toV (S.filter fun s => shardMatches hash total i K by_ s.1)).Perm
-      (eval e.toV S) ∧
-    ∀ i j x y, x ∈ eval e.toV (S.filter fun s => shardMatches hash total i K by_ s.1) →
-      y ∈ eval e.toV (S.filter fun s => shardMatches hash total j K by_ s.1) → x.1 = y.1 → i = j := by
+    ((shardIndices total).flatMap fun i => eval e.toV (shardInput hash total i K by_ S) t).Perm (eval e.toV S t) ∧
+    ∀ i j x y, x ∈ eval e.toV (shardInput hash total i K by_ S) t →
+      y ∈ eval e.toV (shardInput hash total j K by_ S) t → x.1 = y.1 → i = j := by
   have hall : ScopeInv ⟨some K, by_⟩ e.allScopes := by
     have := scopeInv_fold e.allScopes ⟨none, false⟩ [] rfl
     rw [← foldScopes, ← analyze_fragment e hwf, ha] at this
@@ -167,14 +170,15 @@ theorem C44_sound (hash : Labels → Nat) (total : Nat) (e : FExpr) (K : List St
   have hinv : ScopeInv ⟨some K, by_⟩ e.scopes :=
     scopeInv_sub hall (fun sc hsc => by simp [FExpr.allScopes, hsc])
   have hc := compat_of_scoped hash total K by_ e (scoped_of_inv K by_ hname e hwf (dyns_not_hashed hall) hinv)
-  have hshard : ∀ i, (S.filter fun s => shardMatches hash total i K by_ s.1) = shardOf (shReal hash total K by_) i S := by
+  have hshard : ∀ i, shardInput hash total i K by_ S = shardOfT (shReal hash total K by_) i S := by
     intro i
-    unfold shardOf shReal shardMatches
+    funext t'
+    unfold shardInput shardOfT shardOf shReal shardMatches
     apply List.filter_congr
     intro s _
     by_cases h : hash (projection K by_ s.1) % total = i <;> simp [h]
   simp only [hshard]
-  exact C44_compat_sound _ _ hc S total (fun s _ => Nat.mod_lt _ ht)
+  exact C44_compat_sound _ _ hc S t total (fun _ s _ => Nat.mod_lt _ ht)
 
 /-- `sum without (a) (sel)` over the two series m0{a="1"} = 1 and m1{a="2"} = 2 -/
 private def wq : FExpr := .aggWithout "sum" ["a"] List.sum (.sel "{__name__=~\"m0|m1\"}" fun _ => true)
@@ -187,7 +191,7 @@ private def wHash : Labels → Nat := fun l => if l = [("__name__", "m0")] then 
     `{} = 1`, `{} = 2` instead of `{} = 3`. -/
 theorem C44_fragment_full_false : ¬ C44_fragment_full := by
   intro h
-  have := (h wHash 2 wq ["a"] false wS (by decide) (by simp [wq, FExpr.WF]) (by decide) (by decide)).length_eq
+  have := (h wHash 2 wq ["a"] false (fun _ => wS) 0 (by decide) (by simp [wq, FExpr.WF]) (by decide) (by decide)).length_eq
   revert this
   decide
 
@@ -200,8 +204,8 @@ private def bHash : Labels → Nat := fun l => if l = [("__name__", "m0"), ("a",
 
 theorem C44_fragment_full_false_by :
     analyze bq.toExpr = ⟨some ["__name__", "a"], true⟩ ∧
-    ¬ ((shardIndices 2).flatMap fun i => eval bq.toV (bS.filter fun s => shardMatches bHash 2 i ["__name__", "a"] true s.1)).Perm
-      (eval bq.toV bS) := by
+    ¬ ((shardIndices 2).flatMap fun i => eval bq.toV (shardInput bHash 2 i ["__name__", "a"] true fun _ => bS) 0).Perm
+      (eval bq.toV (fun _ => bS) 0) := by
   refine ⟨by decide, fun h => ?_⟩
   have := h.length_eq
   revert this
@@ -226,6 +230,10 @@ example : analyze (FExpr.aggBy "sum" ["a", "dst"] List.sum
     = ⟨some ["a"], true⟩ := by decide
 -- many-to-one: m0 * on (a) group_left (pod) m1 is sharded by a
 example : analyze (FExpr.binMany "*" true ["a"] ["pod"] true (fun x y => some (x * y)) (.sel "m0" fun _ => true) (.sel "m1" fun _ => true)).toExpr
+    = ⟨some ["a"], true⟩ := by decide
+-- max_over_time((sum by (a) (rate(m0[1m])))[10m:1m]) is sharded by a
+example : analyze (FExpr.subq "max_over_time" "10m:1m" true (fun t => [t - 60, t]) (fun _ => 0)
+      (.aggBy "sum" ["a"] List.sum (.rangeFn "rate" "m0" "1m" (fun _ => true) true (fun t => [t - 60, t]) (fun _ => 0)))).toExpr
     = ⟨some ["a"], true⟩ := by decide
 -- … and a without-query made safe by an explicit `__name__`
 example : analyze (FExpr.aggWithout "sum" ["a", "__name__"] List.sum (.sel "m0" fun _ => true)).toExpr = ⟨some ["a", "__name__"], false⟩ := by decide
